@@ -671,13 +671,31 @@ def check_c10(rng, n, hashseeds=("0", "1", "2")):
                 if rng.random() < 0.5:
                     # an active delay model with runtimes long enough for the delay to show
                     spec["delay"] = {"prob": rng.choice([0.3, 0.5, 0.7]), "degree": rng.choice(["MID", "HIGH"]),
-                                     "seed": rng.randint(0, 60)}
+                                     "seed": rng.choice([0, 0, rng.randint(0, 60), rng.randint(0, 60), rng.randint(0, 60)])}
                     mx = max(m["flops"] for m in spec["machines"])
                     for o in spec["observations"]:
                         for nd in o["workflow"]["nodes"]:
                             nd["comp"] = mx * rng.randint(8, 20)
                 elif spec.get("delay") and "prob" in spec["delay"]:
                     spec["delay"] = None
+            if rng.random() < 0.25:
+                # planned-start ties: several roots with zero planned duration on few machines, so that a
+                # plan-driven algorithm meets ready tasks of equal est planned on the same machine
+                spec["planning"], spec["scheduling"] = "static", {"kind": "dynamic"}
+                spec["static_seed"] = rng.randint(0, 10 ** 6)
+                spec["machines"] = spec["machines"][:rng.randint(1, 2)]
+                spec["max_ingest"] = min(spec["max_ingest"], len(spec["machines"]))
+                fl = min(m["flops"] for m in spec["machines"])
+                for o in spec["observations"]:
+                    k = rng.randint(3, 5)
+                    nodes = [{"id": j, "comp": rng.choice([0, 1, max(1, fl - 1), fl * 3, fl * 5])} for j in range(k)]
+                    edges = []
+                    if rng.random() < 0.5:
+                        nodes.append({"id": k, "comp": fl * 2})
+                        edges = [[j, k, rng.choice([0, 2, 4])] for j in range(k)]
+                    o["workflow"] = {"nodes": nodes, "edges": edges}
+                    o["ingest_demand"] = min(o["ingest_demand"], spec["max_ingest"])
+                spec["delay"] = None
             outs = []
             for w in workers:
                 w.stdin.write(json.dumps(spec) + "\n")
